@@ -415,4 +415,29 @@ theorem parse_then_checkSignatureFrom (f : Facts) (cert : Option Int) (fl : Fiel
   · rintro ⟨he, s, h1, h2, h3, h4, hs, h6⟩
     exact ⟨⟨he, s, h1, h2, h3, h4, trivial, h6⟩, hs⟩
 
+/-! ## modified signed bytes -/
+
+/-- **a response whose signature does not verify is rejected when an issuer is given**: if neither the
+    issuer's key nor the first embedded certificate's key verifies the signature over tbsResponseData
+    (what any modification of the signed bytes causes, under the signature assumption), no response is
+    returned — whatever else the bytes contain. -/
+theorem bad_signature_rejected (f : Facts) (cert : Option Int) (fl : Fields)
+    (hsig : f.sigByIssuer = false) (hemb : ∀ c ∈ f.certs.head?, c.signedResp = false) :
+    parseResponse f cert true ≠ .ok fl := by
+  intro h
+  rcases issuer_binding f cert fl h with ⟨_, h2⟩ | ⟨h1, h2, _⟩
+  · rw [hsig] at h2; cases h2
+  · unfold Facts.sigByEmbedded at h2
+    cases hc : f.certs.head? with
+    | none => simp [hc] at h2
+    | some c =>
+      simp only [hc] at h2
+      have := hemb c (by simp [hc])
+      rw [this] at h2; cases h2
+
+/-- non-vacuity: a response that is otherwise perfect -/
+example : parseResponse { singles := [{ serial := 5, good := true }] } none true = .errParse ∧
+    (parseResponse { singles := [{ serial := 5, good := true }], sigByIssuer := true } none true).status? = some goodSt := by
+  decide
+
 end XC.C48
